@@ -169,6 +169,58 @@ def as_oracle(c, fam):
 RICH_SOLS = [(ADDR_A, ADDR_B, [[1, 2, 3], [], [7]], [([1], [2])]), (ADDR_C, ADDR_A, [[9]], [])]
 
 
+def control_soup(rng, n):
+    """random control-flow programs under a small gas limit: loops re-entered by backward jumps, jumps into and out of loop
+    bodies, RepeatEnd / RepeatCounter without a loop, halts — every interaction of the control-flow ops"""
+    rows()
+    out = []
+    for _ in range(n):
+        ops_ = []
+        for _ in range(rng.randrange(3, 14)):
+            r = rng.random()
+            if r < 0.2:
+                ops_ += [P(rng.choice([1, 2, 3])), P(rng.choice([0, 1])), op("REP")]
+            elif r < 0.35:
+                ops_.append(op("REPE"))
+            elif r < 0.5:
+                ops_.append(op("REPC"))
+            elif r < 0.72:
+                ops_ += [P(rng.choice([-9, -6, -5, -4, -3, -2, 2, 3, 4, 5])), P(rng.choice([0, 1, 1])), op("JMPIF")]
+            elif r < 0.78:
+                ops_ += [P(rng.choice([0, 1])), op("HLTIF")]
+            elif r < 0.88:
+                ops_.append(op("POP"))
+            else:
+                ops_.append(P(rng.choice([0, 1, 2])))
+        out.append(case(ops_, stack=[rng.choice([0, 1])] * rng.choice([0, 1, 3]), limit=rng.choice([60, 150, 400])))
+    return out
+
+
+def compute_corner_cases():
+    """Compute children that end *before* the Compute op (backward jump to a Halt the parent skipped), children that read the
+    same range through both state views, children that fail (the parent Vm must be left as it was found)"""
+    ents = std_entries()
+    ext = list(struct_words(ADDR_C))
+    out = []
+    for b in (1, 2, 3):
+        # parent jumps over a Halt (index 3) / a ComputeEnd; the children jump back to it and stop there, before the Compute op
+        out.append(case([P(2), P(1), op("JMPIF"), op("HLT"), P(b), op("COM"), op("POP"), P(-6), P(1), op("JMPIF"), op("COME")], sols=RICH_SOLS))
+        out.append(case([P(2), P(1), op("JMPIF"), op("COME"), P(b), op("COM"), op("POP"), P(-6), P(1), op("JMPIF"), op("COME"), P(9)], sols=RICH_SOLS))
+        out.append(case([P(3), P(1), op("JMPIF"), P(1), op("HLTIF"), P(b), op("COM"), op("POP"), P(-7), P(1), op("JMPIF"), op("COME"), P(9)], sols=RICH_SOLS))
+        # only child 0 goes back, the others run on
+        out.append(case([P(2), P(1), op("JMPIF"), op("HLT"), P(b), op("COM"), P(0), op("EQ"), P(-8), op("SWAP"), op("JMPIF"), P(1), op("ALOC"), op("POP"), op("COME")], sols=RICH_SOLS))
+        # reads of one range through both views inside a child, in both orders
+        for s1, s2 in (("KRNG", "PKRNG"), ("PKRNG", "KRNG"), ("KREX", "PKREX"), ("PKRNG", "PKRNG")):
+            def a_(s_, addr):
+                return [P(w) for w in ((ext if s_.endswith("EX") else []) + [1, 1, 2, addr])]
+            body = [op("POP"), P(30), op("ALOC"), op("POP")] + a_(s1, 0) + [op(s1)] + a_(s2, 12) + [op(s2), op("COME")]
+            out.append(case([P(b), op("COM")] + body, stack=[], sols=RICH_SOLS, entries=ents))
+        # failing children: afterwards nothing of the attempt may remain on the Vm
+        out.append(case([P(b), op("COM"), op("POP"), op("POP"), op("COME")], sols=RICH_SOLS))
+        out.append(case([P(1), op("ALOC"), op("POP"), P(b), op("COM"), op("DUP"), P(b - 1), op("EQ"), op("PNCIF"), op("COME"), P(0), op("LODP")], sols=RICH_SOLS))
+    return out
+
+
 def pex_race_cases(breadths=(2, 8), slot_words=2000, slots=10):
     """Compute children that all execute PredicateExists as their first access op, on a solution set whose pre-image takes
     a while to hash: the per-VM cache of the hashes is initialised while several children are running"""
@@ -273,6 +325,8 @@ def c05_cases(rng, tier):
                          [op("THIS")], [op("THISC")], [P(0), P(0), P(3), op("DATA")], [P(8), op("SHA2")], [P(0), op("LODS")],
                          [P(1), P(1), P(1), op("PUSH") if False else P(1)], [op("REPC")], [P(2), P(1), op("SWAP"), op("DUP"), op("DUP"), op("DUP")]):
                 cases.append(case(pre + tail, sols=RICH_SOLS, entries=ents, mem=[1, 2, 3, 4], rep=[(1, 5, 0)]))
+    cases += compute_corner_cases()
+    cases += control_soup(rng, 150 if tier == "quick" else 5000)
     # parent memory + children's memories around the limit (each side alone within it)
     for pm in (0, 1, 240, 241, MEM_LIMIT - 1, MEM_LIMIT):
         for b in (1, 2):
@@ -446,12 +500,15 @@ def c08_cases(rng, tier):
         for tail_ in ([P(1), op("ALOC")], [P(2), op("ALOC")], [P(0), op("ALOC"), P(1), op("ALOC")], [P(7), P(10239), op("STO")], [P(7), P(10238), op("STO")],
                       [P(7), P(8), P(2), P(10238), op("STOR")], [P(7), P(8), P(2), P(10237), op("STOR")]):
             cases.append(case(grow + tail_, sols=RICH_SOLS))
+    cases += compute_corner_cases()
     n = 1500 if tier == "quick" else 60000
     for _ in range(n):
         ops_ = random_program(rng, rng.randrange(2, 25), alphabet=data_alpha)
         cases.append(case(ops_, stack=rand_stack(rng), mem=rand_stack(rng, rng.choice([0, 3, 9])), sols=RICH_SOLS,
                           pm=[[4, 5, 6]] if rng.random() < 0.3 else []))
-    return cases, []
+    # parent memory is only readable inside Compute children: a Vm must come out of every execution, failed ones included,
+    # with the parent memories it went in with (checked step by step on the real Vm)
+    return cases, [as_oracle(c, "o_steps") for c in compute_corner_cases()]
 
 
 def c07_cases(rng, tier):
@@ -574,6 +631,20 @@ def c09_cases(rng, tier):
             body2 = [op("POP"), op("REPE"), op("REPE"), op("REPC"), P(1), op("ALOC"), op("STO"), op("COME")]
             cases.append(case([P(oc), P(ou), op("REP"), P(ic), P(iu), op("REP"), P(b), op("COM")] + body2 + [op("REPE"), op("REPE")],
                               stack=[7], sols=RICH_SOLS, limit=1000000))
+    cases += control_soup(rng, 400 if tier == "quick" else 20000)
+    # a loop re-entered from its own body (a backward jump to before its Repeat op, taken once thanks to a flag on the stack):
+    # the first counter stays pending underneath and is seen again when the inner run is over
+    for cnt in (1, 2, 3):
+        for up in (0, 1):
+            for back in (-7, -5):       # to the pushes of the Repeat arguments / to the Repeat op itself
+                pre = [P(cnt), P(up)] if back == -5 else []
+                prog = [P(cnt), P(up), op("REP"), P(0), op("SWAP"), P(back), op("SWAP")] + pre + [op("JMPIF"), op("REPC"), op("POP"), op("REPE"),
+                        op("REPC"), op("POP"), op("REPE"), P(7)]
+                if back == -5:
+                    prog = [P(cnt), P(up), op("REP"), P(0), op("SWAP"), P(cnt), op("SWAP"), P(up), op("SWAP"), P(-7), op("SWAP"), op("JMPIF"),
+                            op("REPC"), op("POP"), op("REPE"), op("REPC"), op("POP"), op("REPE"), P(7)]
+                cases.append(case(prog, stack=[1], limit=2000))
+                cases.append(case(prog, stack=[0], limit=2000))
     # counts that would be small if narrowed, under a gas limit that only the narrowed loop could meet
     for n in (258, 65538, (1 << 32) + 2):
         for up in (0, 1):
@@ -673,6 +744,7 @@ def c10_cases(rng, tier):
             cases.append(case([P(oc), P(ou), op("REP"), P(ic), P(iu), op("REP"), P(b), op("COM")] + body2 + [op("REPE"), op("REPE")],
                               stack=[7], sols=RICH_SOLS, limit=1000000))
     cases += pex_race_cases()
+    cases += compute_corner_cases()
     # parent memory x children memory around the limit: each side alone within it, jointly at / above it, children adding nothing
     for pm in (0, 1, 240, 241, MEM_LIMIT - 2, MEM_LIMIT - 1, MEM_LIMIT):
         for b in (1, 2, 3):
@@ -760,6 +832,9 @@ def c11_cases(rng, tier):
                 c = case([op(s_)], stack=st, mem=[-5] * 8, sols=RICH_SOLS, entries=ents, index=0)
                 cases.append(c)
                 oracles.append(as_oracle(c, "o_state"))
+    for c in compute_corner_cases():
+        cases.append(c)
+        oracles.append(as_oracle(c, "o_state"))
     # the other solution's contract (index 1)
     for s_ in ("KRNG", "PKRNG"):
         c = case([op(s_)], stack=[1, 1, 2, 0], mem=[0] * 12, sols=RICH_SOLS, entries=ents, index=1)
